@@ -92,9 +92,35 @@ def _mentions_inf(node):
     return False
 
 
+def _norm_arg(idx, module, e):
+    if isinstance(e, ast.Call) and isinstance(e.func, (ast.Attribute, ast.Name)) and _is_norm(idx, module, e.func) \
+            and len(e.args) == 1 and not e.keywords:
+        return e.args[0]
+    return None
+
+
+def _split_decision(idx, module, leaf):
+    """(problem text or None, difference expr, tolerance expr) for a canonical `norm(d) <op> t`, else None."""
+    if not (isinstance(leaf, ast.Compare) and len(leaf.ops) == 1):
+        return None
+    a, b, op = leaf.left, leaf.comparators[0], leaf.ops[0]
+    da, db = _norm_arg(idx, module, a), _norm_arg(idx, module, b)
+    if da is not None and db is None:
+        if isinstance(op, ast.LtE):
+            return None, da, b
+        if isinstance(op, ast.Lt):
+            return 'strict `<` instead of `<=`: a difference exactly equal to the tolerance (e.g. tolerance 0 and an exact match) fails', da, b
+        return 'comparison operator `%s` instead of `<=`' % type(op).__name__, da, b
+    if db is not None and da is None:
+        if isinstance(op, (ast.LtE, ast.Lt)):
+            return 'comparison direction inverted: passes when the difference is at least the tolerance (`%s`)' % unparse(leaf), db, a
+        return 'comparison operator `%s` instead of `<=`' % type(op).__name__, db, a
+    return None
+
+
 def d1_within_tolerance(ctx, idx):
     r = ctx.rule('D1.TOL', 'within_tolerance decides norm(x - y) <= t (non-strict), t absolute or a percentage of '
-                 'norm(x); +-inf only equals itself', floor=5)
+                 'norm(x); +-inf only equals itself', floor=6)
     with r:
         fi = idx.func(WT)
         if len(fi.params) != 3:
@@ -126,7 +152,7 @@ def d1_within_tolerance(ctx, idx):
                 tol_paths.append((p, where))
         # ---- infinity clause
         if not inf_paths:
-            if _mentions_inf(fi.node):
+            if any(_mentions_inf(e) for p in paths for e in list(p.guards) + ([p.leaf.expr] if p.leaf.expr is not None else [])):
                 r.undecided(C + ': infinity clause', 'infinities are handled in a form that is not recognised', fi.loc)
             else:
                 r.violation(C + ': infinity clause', 'no path handles infinite operands: inf - inf is nan and nan <= t is False, '
@@ -170,32 +196,36 @@ def d1_within_tolerance(ctx, idx):
             pos = any(nf.match('isinstance(%s, str)' % pt, g) is not None for g in p.guards)
             neg = any(nf.match('not isinstance(%s, str)' % pt, g) is not None for g in p.guards)
             tag = 'percentage' if pos else 'absolute'
-            b = {}
-            res = nf.classify('_NORM(_A - _B) <= _T', leaf, b)
-            if isinstance(res, tuple):
-                r.violation(C + ': comparison [%s]' % tag, res[1] + ' -- the decision is no longer norm(x - y) <= tolerance '
-                            '(a value exactly at the tolerance must pass, a larger one must fail)', where,
-                            expected='norm(x - y) <= tolerance', found=unparse(leaf))
-                continue
-            if res != nf.MATCH:
+            if pos and not neg:
+                seen_pct = True
+            else:
+                seen_abs = True
+            got = _split_decision(idx, fi.module, leaf)
+            if got is None:
                 if isinstance(leaf, ast.Constant):
                     r.violation(C + ': comparison [%s]' % tag, 'returns the constant %r instead of comparing' % leaf.value, where)
                 else:
                     r.undecided(C + ': comparison [%s]' % tag, 'decision expression not recognised: %s' % short(leaf), where)
                 continue
-            norm_ok = isinstance(b['_NORM'], (ast.Attribute, ast.Name)) and _is_norm(idx, fi.module, b['_NORM'])
-            roles = {fl.name_of(b['_A']), fl.name_of(b['_B'])}
-            if not norm_ok:
-                r.undecided(C + ': comparison [%s]' % tag, 'norm function not recognised: %s' % short(b['_NORM']), where)
+            problem, diff, T = got
+            if problem:
+                r.violation(C + ': comparison [%s]' % tag, problem + ' -- the decision is no longer norm(x - y) <= tolerance '
+                            '(a difference exactly at the tolerance must pass, a larger one must fail)', where,
+                            expected='norm(x - y) <= tolerance', found=unparse(leaf))
                 continue
-            if roles != {px, py}:
-                if roles <= {px, py}:
-                    r.violation(C + ': comparison [%s]' % tag, 'the difference is `%s - %s`: one operand is compared with itself'
-                                % (unparse(b['_A']), unparse(b['_B'])), where, expected='%s - %s' % (px, py))
+            dres = nf.classify(['%s - %s' % (px, py), '%s - %s' % (py, px)], diff)
+            if isinstance(dres, tuple):
+                r.violation(C + ': comparison [%s]' % tag, 'the compared quantity is not the difference of the two values: ' + dres[1],
+                            where, expected='norm(%s - %s)' % (px, py), found=unparse(diff))
+                continue
+            if dres != nf.MATCH:
+                names = lib.names_in(diff)
+                if isinstance(diff, ast.BinOp) and isinstance(diff.op, ast.Sub) and names and (names <= {px} or names <= {py}):
+                    r.violation(C + ': comparison [%s]' % tag, 'the difference `%s` involves only one of the two values'
+                                % unparse(diff), where, expected='%s - %s' % (px, py))
                 else:
-                    r.undecided(C + ': comparison [%s]' % tag, 'operands of the difference not recognised: %s' % short(leaf), where)
+                    r.undecided(C + ': comparison [%s]' % tag, 'compared quantity not recognised: %s' % short(diff), where)
                 continue
-            T = b['_T']
             if pos and not neg:
                 seen_pct = True
                 tb = {}
@@ -259,3 +289,1023 @@ def d1_percentage(ctx, idx):
         res = nf.classify(alts, leaf)
         r.verdict('percentage_as_number', res, where, ok_detail='float(s.strip()[:-1]) * 0.01',
                   expected='float(s.strip()[:-1]) * 0.01')
+
+
+# ----------------------------------------------------------------------------- D2
+def _gen_eval_roots(fi):
+    """(author parameter, student parameter) of a gen_evaluations implementation."""
+    ps = fi.params
+    student = 'student_input' if 'student_input' in ps else None
+    author = 'comparer_params' if 'comparer_params' in ps else ('answer' if 'answer' in ps else None)
+    if not student or not author:
+        raise AnalysisError('%s: cannot identify the author/student parameters among %s' % (fi.qualname, ps))
+    return author, student
+
+
+def _role_of(prov, expr, author, student):
+    s = prov.of(expr) & {author, student}
+    if s == {author}:
+        return 'author'
+    if s == {student}:
+        return 'student'
+    if not s:
+        return 'none'
+    return 'mixed'
+
+
+def _check_pair(r, construct, where, role0, role1, what, why):
+    """Positions 0/1 must carry author/student."""
+    if (role0, role1) == ('author', 'student'):
+        r.ok(construct, '%s = (author, student)' % what, where)
+    elif (role0, role1) == ('student', 'author'):
+        r.violation(construct, '%s are swapped: the student\'s value is passed where the author\'s is expected and vice versa; %s'
+                    % (what, why), where, expected='(author, student)', found='(student, author)')
+    elif role0 == role1 and role0 in ('author', 'student'):
+        r.violation(construct, '%s both derive from the %s\'s side: the other side is not compared at all' % (what, role0),
+                    where, expected='(author, student)', found='(%s, %s)' % (role0, role1))
+    else:
+        r.undecided(construct, '%s have roles (%s, %s), not recognised' % (what, role0, role1), where)
+
+
+WHY_SWAP = "a percentage tolerance becomes relative to the student's value and shape validation is applied to the wrong side"
+
+
+def d2_roles(ctx, idx):
+    r = ctx.rule('D2.ROLE', 'author/student roles are preserved at every hop down to within_tolerance(x=author, y=student)',
+                 floor=22)
+    with r:
+        # hop 1: gen_evaluations returns (author evaluations, student evaluations, ...)
+        for q in (FGC, IGC, SGC):
+            fi = idx.func(q + '.gen_evaluations')
+            author, student = _gen_eval_roots(fi)
+            prov = fl.Prov(fi.node, roots=[author, student])
+            rets = lib.returns_of(fi.node)
+            if not rets:
+                raise AnalysisError('%s has no return' % fi.qualname)
+            for ret in rets:
+                v = ret.value
+                if not (isinstance(v, ast.Tuple) and len(v.elts) >= 2):
+                    r.undecided(fi.qualname + ': return', 'does not return a tuple literal: %s' % short(ret), lib.loc(fi, ret))
+                    continue
+                _check_pair(r, fi.qualname + ': return', lib.loc(fi, ret),
+                            _role_of(prov, v.elts[0], author, student), _role_of(prov, v.elts[1], author, student),
+                            'the first two returned lists', WHY_SWAP)
+        # hop 2: raw_check hands (author evals, student evals, comparer, utils) to compare_evaluations
+        for q, default_cmp in ((FGC, None), (SGB, 'equality_comparer')):
+            fi = idx.func(q + '.raw_check')
+            gcall = lib.one_call(fi, 'gen_evaluations')
+            st = enclosing_stmt(gcall)
+            if not (isinstance(st, ast.Assign) and st.value is gcall and len(st.targets) == 1
+                    and isinstance(st.targets[0], (ast.Tuple, ast.List))
+                    and all(isinstance(e, ast.Name) for e in st.targets[0].elts) and len(st.targets[0].elts) >= 2):
+                raise AnalysisError('%s: result of gen_evaluations is not unpacked into names' % fi.qualname)
+            names = [e.id for e in st.targets[0].elts]
+            ccall = lib.one_call(fi, 'compare_evaluations')
+            if len(ccall.args) < 4 or ccall.keywords:
+                raise AnalysisError('%s: compare_evaluations call shape not recognised' % fi.qualname)
+
+            def role(e):
+                if isinstance(e, ast.Name) and e.id in names:
+                    return {0: 'author', 1: 'student'}.get(names.index(e.id), 'none')
+                return 'none'
+            _check_pair(r, fi.qualname + ': compare_evaluations(...)', lib.loc(fi, ccall), role(ccall.args[0]), role(ccall.args[1]),
+                        'the first two arguments', WHY_SWAP)
+            if not lib.dominated(fi, [gcall], [ccall]):
+                r.violation(fi.qualname + ': compare_evaluations(...)', 'comparison can run before the evaluations are generated',
+                            lib.loc(fi, ccall))
+            u = ccall.args[3]
+            u_ok = (isinstance(u, ast.Call) and nf.callee_name(u) == 'get_comparer_utils') or \
+                   (isinstance(u, ast.Attribute) and u.attr == 'comparer_utils')
+            if u_ok:
+                r.ok(fi.qualname + ': utils', 'the grader\'s own comparer utils (configured tolerance)', lib.loc(fi, ccall))
+            else:
+                r.undecided(fi.qualname + ': utils', 'utils argument not recognised: %s' % short(u), lib.loc(fi, ccall))
+            c = ccall.args[2]
+            if default_cmp:
+                if isinstance(c, ast.Name) and c.id == default_cmp and _is_equality_comparer(idx, fi.module, c.id):
+                    r.ok(fi.qualname + ': comparer', 'equality_comparer', lib.loc(fi, ccall))
+                else:
+                    r.undecided(fi.qualname + ': comparer', 'comparer argument not recognised: %s' % short(c), lib.loc(fi, ccall))
+            else:
+                c2 = lib.inline_locals(c, fi.node)
+                if nf.match("answer['expect']['comparer']", c2) is not None:
+                    r.ok(fi.qualname + ': comparer', "answer['expect']['comparer']", lib.loc(fi, ccall))
+                else:
+                    r.undecided(fi.qualname + ': comparer', 'comparer argument not recognised: %s' % short(c2), lib.loc(fi, ccall))
+        # hop 3: compare_evaluations -> comparer(author, student, utils)
+        fi = idx.func(MM + '.compare_evaluations')
+        if len(fi.params) != 5:
+            raise AnalysisError('compare_evaluations: unexpected parameter list %s' % fi.params)
+        _, p_auth, p_stud, p_cmp, p_utils = fi.params
+        prov = fl.Prov(fi.node, roots=[p_auth, p_stud])
+        sites = [c for c in walk_own(fi.node) if isinstance(c, ast.Call) and isinstance(c.func, ast.Name) and c.func.id == p_cmp]
+        if len(sites) < 2:
+            raise AnalysisError('compare_evaluations: expected two comparer call sites, found %d' % len(sites))
+        for c in sites:
+            corr = any(nf.match('isinstance(%s, CorrelatedComparer)' % p_cmp, a.test) is not None and br == 'body'
+                       for a, br in fl.if_chain_containing(c, fi.node))
+            construct = 'MathMixin.compare_evaluations: comparer(...) [%s]' % ('correlated' if corr else 'per sample')
+            if len(c.args) != 3 or c.keywords:
+                r.undecided(construct, 'call shape not recognised: %s' % short(c), lib.loc(fi, c))
+                continue
+            _check_pair(r, construct, lib.loc(fi, c), _role_of(prov, c.args[0], p_auth, p_stud),
+                        _role_of(prov, c.args[1], p_auth, p_stud), 'the first two arguments', WHY_SWAP)
+            if not (isinstance(c.args[2], ast.Name) and c.args[2].id == p_utils):
+                r.undecided(construct + ' utils', 'third argument is not the utils parameter: %s' % short(c.args[2]), lib.loc(fi, c))
+            if not corr:
+                loop = fl.enclosing_loop(c, fi.node)
+                if loop is None:
+                    r.violation(construct, 'the per-sample comparison is no longer inside a loop over the samples', lib.loc(fi, c))
+                else:
+                    it = loop.iter if isinstance(loop, ast.For) else None
+                    if it is not None and nf.match('zip(%s, %s)' % (p_auth, p_stud), it) is not None:
+                        extra = [e for e in lib.loop_has_early_exit(loop) if not isinstance(e, ast.Raise)]
+                        r.check(not extra, construct + ' loop', 'every (author, student) pair of zip(...) is compared',
+                                'the loop over the samples is left early (`%s`): later samples are never compared'
+                                % (short(extra[0]) if extra else ''), lib.loc(fi, loop))
+                    elif it is not None and nf.match('zip(%s, %s)' % (p_stud, p_auth), it) is not None:
+                        r.ok(construct + ' loop', 'zip(student, author) (roles checked at the call)', lib.loc(fi, loop))
+                    else:
+                        r.undecided(construct + ' loop', 'iteration not recognised: %s' % short(it), lib.loc(fi, loop))
+        # every result is appended
+        apps = [c for c in lib.calls_named(fi.node, 'append')]
+        if len(apps) < len(sites):
+            r.violation('MathMixin.compare_evaluations: results', 'a comparer result is no longer collected (%d append for %d '
+                        'comparer calls)' % (len(apps), len(sites)), fi.loc)
+        # hop 4: EqualityComparer.__call__ -> utils.within_tolerance(expected, student)
+        fi = idx.func(EQC + '.__call__')
+        if len(fi.params) != 4:
+            raise AnalysisError('EqualityComparer.__call__: unexpected parameters %s' % fi.params)
+        _, p_auth, p_stud, p_utils = fi.params
+        prov = fl.Prov(fi.node, roots=[p_auth, p_stud])
+        wcalls = [c for c in lib.calls_named(fi.node, 'within_tolerance')]
+        if not wcalls:
+            raise AnalysisError('EqualityComparer.__call__: no call of utils.within_tolerance')
+        for c in wcalls:
+            construct = 'EqualityComparer.__call__: utils.within_tolerance(...)'
+            recv_ok = isinstance(c.func, ast.Attribute) and isinstance(c.func.value, ast.Name) and c.func.value.id == p_utils
+            if not recv_ok or len(c.args) != 2 or c.keywords:
+                r.undecided(construct, 'call shape not recognised: %s' % short(c), lib.loc(fi, c))
+                continue
+            _check_pair(r, construct, lib.loc(fi, c), _role_of(prov, c.args[0], p_auth, p_stud),
+                        _role_of(prov, c.args[1], p_auth, p_stud), 'the two arguments',
+                        "a percentage tolerance becomes relative to the student's value")
+            ca = prov.callees_in_chain(c.args[0]) - {'isinstance'}
+            cb = prov.callees_in_chain(c.args[1]) - {'isinstance'}
+            if ca == cb:
+                r.ok(construct + ' [transform]', 'the same transform chain %s on both sides' % sorted(ca), lib.loc(fi, c))
+            else:
+                r.violation(construct + ' [transform]', 'the two sides are prepared differently (%s vs %s): the configured '
+                            'transform is applied to one side only' % (sorted(ca), sorted(cb)), lib.loc(fi, c))
+            rets = [x for x in lib.returns_of(fi.node)]
+            if not any(x.value is c for x in rets):
+                r2 = nf.classify('not _X', rets[0].value) if rets else None
+                if rets and isinstance(rets[0].value, ast.UnaryOp) and isinstance(rets[0].value.op, ast.Not):
+                    r.violation(construct + ' [result]', 'the comparer returns the negation of within_tolerance', lib.loc(fi, rets[0]))
+                else:
+                    r.undecided(construct + ' [result]', 'the result of within_tolerance is not returned directly', lib.loc(fi, c))
+        # hop 5: get_comparer_utils -> within_tolerance(x, y, config['tolerance'])
+        for q in (MM, MGC):
+            fi = idx.func(q + '.get_comparer_utils')
+            short_q = q.split('.')[-1] + '.get_comparer_utils'
+            rets = lib.returns_of(fi.node)
+            if len(rets) != 1 or not isinstance(rets[0].value, ast.Call):
+                raise AnalysisError('%s: expected a single `return self.Utils(...)`' % short_q)
+            ucall = rets[0].value
+            wt = lib.get_kw(ucall, 'within_tolerance', 1)
+            tol = lib.get_kw(ucall, 'tolerance', 0)
+            if not lib.is_config(tol, 'tolerance'):
+                k = nf.config_key(tol) if tol is not None else None
+                if k is not None:
+                    r.violation(short_q + ': utils.tolerance', "utils.tolerance is config['%s'], not config['tolerance']" % k,
+                                lib.loc(fi, ucall))
+                else:
+                    r.undecided(short_q + ': utils.tolerance', 'not recognised: %s' % short(tol), lib.loc(fi, ucall))
+            if not isinstance(wt, ast.Name) or not idx.has_func(fi.qualname + '.<locals>.' + wt.id):
+                r.undecided(short_q + ': utils.within_tolerance', 'is not a locally defined function: %s' % short(wt), lib.loc(fi, ucall))
+                continue
+            inner = idx.func(fi.qualname + '.<locals>.' + wt.id)
+            if len(inner.params) != 2:
+                r.undecided(short_q + ': ' + wt.id, 'expected two parameters (x, y)', inner.loc)
+                continue
+            ipaths = nf.decision_paths(inner.node.body)
+            if len(ipaths) != 1 or ipaths[0].leaf.kind != 'ret' or not isinstance(ipaths[0].leaf.expr, ast.Call):
+                r.undecided(short_q + ': ' + wt.id, 'body is not a single `return within_tolerance(...)`', inner.loc)
+                continue
+            call = [c for c in walk_own(inner.node) if isinstance(c, ast.Call) and nf.callee_name(c) == 'within_tolerance']
+            call = call[0] if call else None
+            leafcall = ipaths[0].leaf.expr
+            targets, how = idx.resolve_call(inner, call) if call is not None else ([], 'unresolved')
+            if not (len(targets) == 1 and getattr(targets[0], 'qualname', None) == WT):
+                r.undecided(short_q + ': ' + wt.id, 'does not resolve to calc.mathfuncs.within_tolerance: %s' % short(leafcall), inner.loc)
+                continue
+            a0 = lib.get_kw(leafcall, 'x', 0)
+            a1 = lib.get_kw(leafcall, 'y', 1)
+            a2 = lib.get_kw(leafcall, 'tolerance', 2)
+            x, y = inner.params
+            where = lib.loc(inner, call)
+            if fl.name_of(a0) == x and fl.name_of(a1) == y:
+                r.ok(short_q + ': within_tolerance(x, y, ...)', 'forwards (x, y) in order', where)
+            elif fl.name_of(a0) == y and fl.name_of(a1) == x:
+                r.violation(short_q + ': within_tolerance(x, y, ...)', 'forwards (y, x): ' + WHY_SWAP.split(' and ')[0], where,
+                            expected='within_tolerance(%s, %s, ...)' % (x, y), found=unparse(leafcall))
+            elif fl.name_of(a0) in (x, y) and fl.name_of(a0) == fl.name_of(a1):
+                r.violation(short_q + ': within_tolerance(x, y, ...)', 'compares a value with itself: every answer passes', where)
+            else:
+                r.undecided(short_q + ': within_tolerance(x, y, ...)', 'arguments not recognised: %s' % short(leafcall), where)
+            if lib.is_config(a2, 'tolerance'):
+                r.ok(short_q + ': tolerance argument', "self.config['tolerance']", where)
+            elif a2 is not None and nf.config_key(a2) is not None:
+                r.violation(short_q + ': tolerance argument', "the tolerance handed to within_tolerance is config['%s']"
+                            % nf.config_key(a2), where, expected="self.config['tolerance']")
+            elif isinstance(a2, ast.Constant):
+                r.violation(short_q + ': tolerance argument', 'the configured tolerance is ignored: constant %r is used'
+                            % a2.value, where, expected="self.config['tolerance']")
+            else:
+                r.undecided(short_q + ': tolerance argument', 'not recognised: %s' % short(a2), where)
+        # default comparer
+        for q in (FGC, NGC, MGC):
+            ci = idx.cls(q)
+            v = ci.attrs.get('default_comparer')
+            name = q.split('.')[-1]
+            if v is None:
+                r.undecided(name + '.default_comparer', 'class attribute vanished', ci.loc)
+                continue
+            b = nf.match('staticmethod(_C)', v)
+            if b is not None and isinstance(b['_C'], ast.Name) and _is_equality_comparer(idx, ci.module, b['_C'].id):
+                r.ok(name + '.default_comparer', 'equality_comparer = EqualityComparer()', lib.mloc(ci.module, v))
+            else:
+                r.undecided(name + '.default_comparer', 'not staticmethod(equality_comparer): %s' % short(v), lib.mloc(ci.module, v))
+        fi = idx.func(FGC + '.validate_expect')
+        found = False
+        for d in [n for n in walk_own(fi.node) if isinstance(n, ast.Dict)]:
+            keys = lib.dict_literal_keys(d)
+            if 'comparer' in keys and 'comparer_params' in keys:
+                found = True
+                cv = d.values[keys.index('comparer')]
+                pv = d.values[keys.index('comparer_params')]
+                guard = any(nf.match('isinstance(%s, str)' % fi.params[-1], a.test) is not None and br == 'body'
+                            for a, br in fl.if_chain_containing(d, fi.node))
+                ok = nf.match('self.default_comparer', cv) is not None and nf.match('[%s]' % fi.params[-1], pv) is not None and guard
+                if ok:
+                    r.ok('FormulaGrader.validate_expect: string answers', "{'comparer': self.default_comparer, 'comparer_params': [expect]}",
+                         lib.loc(fi, d))
+                else:
+                    r.undecided('FormulaGrader.validate_expect: string answers', 'not recognised: %s' % short(d), lib.loc(fi, d))
+        if not found:
+            r.undecided('FormulaGrader.validate_expect: string answers', 'dict literal with comparer/comparer_params vanished', fi.loc)
+
+
+def _is_equality_comparer(idx, module, name):
+    kind, obj = idx.resolve_name(module, name)
+    if kind != 'value':
+        return False
+    mod, nm = obj
+    vals = mod.assigns.get(nm, [])
+    if len(vals) != 1 or not isinstance(vals[0], ast.Call) or vals[0].args or vals[0].keywords:
+        return False
+    k2, o2 = idx.resolve_name(mod, nf.callee_name(vals[0]))
+    return k2 == 'class' and o2.qualname == EQC
+
+
+# ----------------------------------------------------------------------------- D3
+def d3_consolidate(ctx, idx):
+    r = ctx.rule('D3.CONSOLIDATE', 'one failure per result whose ok is not True; failing result returned iff '
+                 'len(results) == 1 or failures > failable_evals; otherwise the pruned answer', floor=7)
+    with r:
+        fi = idx.func(MM + '.consolidate_results')
+        C = 'MathMixin.consolidate_results'
+        ps = [p for p in fi.params if p not in ('self', 'cls')]
+        if len(ps) != 3:
+            raise AnalysisError('consolidate_results: unexpected parameters %s' % fi.params)
+        p_res, p_ans, p_fail = ps
+        loops = [l for l in lib.loops_of(fi.node)]
+        loops = [l for l in loops if isinstance(l, ast.For) and fl.mentions(l.iter, p_res)]
+        if len(loops) != 1:
+            raise AnalysisError('consolidate_results: expected exactly one loop over the results, found %d' % len(loops))
+        loop = loops[0]
+        if not (isinstance(loop.iter, ast.Name) and loop.iter.id == p_res and isinstance(loop.target, ast.Name)):
+            if isinstance(loop.iter, ast.Subscript):
+                r.violation(C + ': loop', 'only part of the results is examined (`%s`): failures in the other samples are not '
+                            'counted' % short(loop.iter), lib.loc(fi, loop), expected='for result in %s' % p_res)
+            else:
+                r.undecided(C + ': loop', 'iteration not recognised: %s' % short(loop.iter), lib.loc(fi, loop))
+            return
+        rv = loop.target.id
+        r.ok(C + ': loop', 'iterates over every result', lib.loc(fi, loop))
+        # the failure test: an If directly testing result['ok']
+        tests = [n for n in ast.walk(loop) if isinstance(n, ast.If) and
+                 any(nf.match("%s['ok']" % rv, x) is not None for x in ast.walk(n.test))]
+        if len(tests) != 1:
+            raise AnalysisError("consolidate_results: expected one test of %s['ok'] in the loop, found %d" % (rv, len(tests)))
+        ft = tests[0]
+        t = nf.canon(ft.test)
+        where = lib.loc(fi, ft)
+        good = ["%s['ok'] != True" % rv, "%s['ok'] is not True" % rv]
+        partial_as_pass = ["%s['ok'] == False" % rv, "%s['ok'] is False" % rv, "not %s['ok']" % rv,
+                           "%s['ok'] != True and %s['ok'] != 'partial'" % (rv, rv), "%s['grade_decimal'] == 0" % rv]
+        everything_fails = ["%s['ok'] == True" % rv, "%s['ok'] is True" % rv]
+        if any(nf.match(g, t) is not None for g in good):
+            r.ok(C + ': failure test', "a result fails iff its ok is not True ('partial' fails)", where)
+        elif any(nf.match(g, t) is not None for g in partial_as_pass):
+            r.violation(C + ': failure test', "`%s` counts only ok == False as a failure: a sample graded 'partial' passes as if it "
+                        "agreed, so a partially wrong formula earns the answer's full credit" % unparse(ft.test), where,
+                        expected="%s['ok'] != True" % rv, found=unparse(ft.test))
+        elif any(nf.match(g, t) is not None for g in everything_fails):
+            r.violation(C + ': failure test', 'the test is inverted: agreeing samples are counted as failures', where,
+                        expected="%s['ok'] != True" % rv, found=unparse(ft.test))
+        else:
+            r.undecided(C + ': failure test', 'not recognised: %s' % short(ft.test), where)
+        # the counter
+        incs = []
+        for n in ast.walk(loop):
+            if isinstance(n, ast.AugAssign) and isinstance(n.target, ast.Name):
+                incs.append((n, n.target.id, ast.BinOp(left=ast.Name(id=n.target.id, ctx=ast.Load()), op=n.op, right=n.value)))
+            elif isinstance(n, ast.Assign) and len(n.targets) == 1 and isinstance(n.targets[0], ast.Name) \
+                    and fl.mentions(n.value, n.targets[0].id):
+                incs.append((n, n.targets[0].id, n.value))
+        if len(incs) != 1:
+            if not incs:
+                r.violation(C + ': counter', 'failures are no longer counted inside the loop', lib.loc(fi, loop))
+                return
+            raise AnalysisError('consolidate_results: several accumulators in the loop')
+        inc, cn, val = incs[0]
+        res = nf.classify('%s + 1' % cn, val)
+        in_fail = any(a is ft and br == 'body' for a, br in fl.if_chain_containing(inc, fi.node))
+        if res == nf.MATCH and in_fail:
+            r.ok(C + ': counter', 'incremented by one for every failing result', lib.loc(fi, inc))
+        elif res == nf.MATCH:
+            r.violation(C + ': counter', 'the failure counter is incremented outside the failure test: every sample counts as a failure '
+                        'or none does', lib.loc(fi, inc))
+        elif isinstance(res, tuple):
+            r.violation(C + ': counter', res[1], lib.loc(fi, inc), expected='%s += 1' % cn, found=short(inc))
+        else:
+            r.undecided(C + ': counter', 'update not recognised: %s' % short(inc), lib.loc(fi, inc))
+        inits = [v for v in lib.assigned_value(fi.node, cn) if not fl.mentions(v, cn)]
+        if len(inits) == 1 and nf.const_value(inits[0], None) == 0 and not isinstance(nf.const_value(inits[0]), bool):
+            init_stmt = enclosing_stmt(inits[0])
+            r.check(lib.dominated(fi, [init_stmt], [loop.iter]) and fl.enclosing_loop(init_stmt, fi.node) is None,
+                    C + ': counter start', 'starts at 0 before the loop', 'the counter is (re)set inside or after the loop',
+                    lib.loc(fi, init_stmt))
+        elif len(inits) == 1 and isinstance(nf.const_value(inits[0], None), (int, float)):
+            r.violation(C + ': counter start', 'the failure counter starts at %r instead of 0' % nf.const_value(inits[0]),
+                        lib.loc(fi, inits[0]), expected='0')
+        else:
+            r.undecided(C + ': counter start', 'initialisation not recognised', fi.loc)
+        # the early return
+        rets = [n for n in ast.walk(loop) if isinstance(n, ast.Return)]
+        others = [e for e in lib.loop_has_early_exit(loop) if not isinstance(e, ast.Return)]
+        for e in others:
+            r.violation(C + ': loop', '`%s` leaves/skips the loop: later results are not examined' % short(e), lib.loc(fi, e))
+        if len(rets) != 1:
+            if not rets:
+                r.violation(C + ': threshold', 'the loop never returns a failing result: every response obtains the answer\'s credit',
+                            lib.loc(fi, loop))
+                return
+            raise AnalysisError('consolidate_results: several returns inside the loop')
+        ret = rets[0]
+        chain = fl.if_chain_containing(ret, fi.node)
+        if not any(a is ft and br == 'body' for a, br in chain):
+            r.violation(C + ': threshold', 'the early return is not under the failure test: a passing result can be returned as the '
+                        'verdict', lib.loc(fi, ret))
+        inner = [(a, br) for a, br in chain if a is not ft]
+        if len(inner) != 1 or inner[0][1] != 'body':
+            if not inner:
+                r.violation(C + ': threshold', 'the first failing sample is returned unconditionally: failable_evals is ignored',
+                            lib.loc(fi, ret), expected='if len(%s) == 1 or %s > %s' % (p_res, cn, p_fail))
+            else:
+                r.undecided(C + ': threshold', 'guards of the early return not recognised', lib.loc(fi, ret))
+        else:
+            cond = inner[0][0].test
+            res = nf.classify('len(%s) == 1 or %s < %s' % (p_res, p_fail, cn), cond)
+            if res == nf.MATCH:
+                r.ok(C + ': threshold', 'len(results) == 1 or failures > failable_evals (strict)', lib.loc(fi, inner[0][0]))
+            elif isinstance(res, tuple):
+                r.violation(C + ': threshold', res[1] + ' -- the verdict must be wrong iff #failed > failable_evals, or the single '
+                            'sample failed', lib.loc(fi, inner[0][0]),
+                            expected='len(%s) == 1 or %s > %s' % (p_res, cn, p_fail), found=unparse(cond))
+            else:
+                r.undecided(C + ': threshold', 'condition not recognised: %s' % short(cond), lib.loc(fi, inner[0][0]))
+            # the counter is updated before it is compared
+            if not lib.dominated(fi, [inc], [inner[0][0].test]):
+                r.violation(C + ': threshold', 'the failure counter is compared before it is incremented: one more failure than '
+                            'failable_evals is tolerated', lib.loc(fi, inner[0][0]))
+        if isinstance(ret.value, ast.Name) and ret.value.id == rv:
+            r.ok(C + ': failing verdict', 'returns the failing result itself', lib.loc(fi, ret))
+        else:
+            prov = fl.Prov(fi.node, roots=[p_res, p_ans])
+            if prov.of(ret.value) & {p_ans} and not (prov.of(ret.value) & {p_res}):
+                r.violation(C + ': failing verdict', 'the answer (credit) is returned for a failing response', lib.loc(fi, ret))
+            else:
+                r.undecided(C + ': failing verdict', 'returned value not recognised: %s' % short(ret), lib.loc(fi, ret))
+        # fall-through verdict
+        cfg = cfg_of(fi.node)
+        tail = [x for x in lib.returns_of(fi.node) if x is not ret]
+        if len(tail) != 1:
+            raise AnalysisError('consolidate_results: expected one return after the loop')
+        prov = fl.Prov(fi.node, roots=[p_res, p_ans])
+        pr = prov.of(tail[0].value)
+        if pr == {p_ans}:
+            v = lib.inline_locals(tail[0].value, fi.node)
+            keys = None
+            if isinstance(v, ast.DictComp) and len(v.generators) == 1:
+                keys = nf.const_value(v.generators[0].iter)
+            if keys is not None and set(keys) == {'ok', 'grade_decimal', 'msg'} and \
+                    nf.match('%s[_K]' % p_ans, v.value) is not None:
+                r.ok(C + ': passing verdict', "the answer pruned to ok/grade_decimal/msg", lib.loc(fi, tail[0]))
+            elif isinstance(v, ast.Name) and v.id == p_ans:
+                r.ok(C + ': passing verdict', 'the answer', lib.loc(fi, tail[0]))
+            else:
+                r.undecided(C + ': passing verdict', 'not recognised: %s' % short(v), lib.loc(fi, tail[0]))
+        elif p_res in pr:
+            r.violation(C + ': passing verdict', 'a comparer result is returned instead of the answer\'s credit/message',
+                        lib.loc(fi, tail[0]))
+        else:
+            r.undecided(C + ': passing verdict', 'returned value not recognised: %s' % short(tail[0]), lib.loc(fi, tail[0]))
+
+
+# ----------------------------------------------------------------------------- D4
+EVAL_CALLEES = {'scoped_eval', 'eval_and_validate_comparer_params', 'evaluate_int', 'evaluate_sum', 'evaluator'}
+SCOPE_WRITERS = {'update', 'setdefault', '__setitem__', 'clear', 'pop', 'popitem'}
+
+
+def eval_sites(fi, author, student):
+    """(author evaluation calls, student evaluation calls) of a gen_evaluations body: outermost calls of the
+    reviewed evaluation functions whose arguments mention the author's / the student's parameter."""
+    out = {}
+    for role, root in (('author', author), ('student', student)):
+        calls = fl.outermost([c for c in fl.calls_mentioning(fi.node, root)
+                              if nf.callee_name(c) not in ('append', 'format', 'log', 'log_eval_info')])
+        bad = [c for c in calls if nf.callee_name(c) not in EVAL_CALLEES]
+        if bad:
+            raise AnalysisError('%s: `%s` uses the %s\'s expressions through an unreviewed function'
+                                % (fi.qualname, short(bad[0]), role))
+        out[role] = calls
+    return out['author'], out['student']
+
+
+def scope_names(fi, calls):
+    """Names of the dict objects handed to the evaluation as variable / function scope."""
+    names = set()
+    for c in calls:
+        cn = nf.callee_name(c)
+        if cn in ('evaluate_int', 'evaluate_sum'):
+            for k in ('varscope', 'funcscope'):
+                v = lib.get_kw(c, k)
+                if isinstance(v, ast.Name):
+                    names.add((k, v.id))
+                elif v is None:
+                    names.add((k, '<default: empty scope>'))
+                else:
+                    names.add((k, '<new object: %s>' % short(v, 60)))
+        elif cn in ('scoped_eval', 'eval_and_validate_comparer_params'):
+            q = fi.qualname + '.<locals>.scoped_eval'
+            inner = None
+            for n in walk_own(fi.node):
+                if isinstance(n, ast.FunctionDef) and n.name == 'scoped_eval':
+                    inner = n
+            if inner is None:
+                raise AnalysisError('%s: nested scoped_eval vanished' % fi.qualname)
+            a = inner.args
+            pos = a.posonlyargs + a.args
+            defaults = dict(zip([x.arg for x in pos[len(pos) - len(a.defaults):]], a.defaults))
+            for k in ('variables', 'functions'):
+                v = defaults.get(k)
+                if isinstance(v, ast.Name):
+                    names.add((k, v.id))
+                else:
+                    raise AnalysisError('%s: scoped_eval default for %s is not a plain name' % (fi.qualname, k))
+            # explicit overrides at the call site would change the scope object
+            if any(k.arg in ('variables', 'functions') for k in c.keywords) or (cn == 'scoped_eval' and len(c.args) > 1):
+                raise AnalysisError('%s: `%s` overrides the evaluation scope' % (fi.qualname, short(c)))
+        else:
+            raise AnalysisError('%s: scope of `%s` not recognised' % (fi.qualname, short(c)))
+    return names
+
+
+def d4_samples(ctx, idx):
+    r = ctx.rule('D4.SAMPLES', "author and student are evaluated in the same iteration of one loop over range(config['samples']) "
+                 'on the same scope objects, the i-th sample loaded first, only deletions in between', floor=18)
+    with r:
+        for q in (FGC, IGC, SGC):
+            fi = idx.func(q + '.gen_evaluations')
+            name = q.split('.')[-1] + '.gen_evaluations'
+            author, student = _gen_eval_roots(fi)
+            a_calls, s_calls = eval_sites(fi, author, student)
+            if len(a_calls) != 1 or len(s_calls) != 1:
+                raise AnalysisError('%s: expected one author and one student evaluation, found %d/%d'
+                                    % (name, len(a_calls), len(s_calls)))
+            ac, sc = a_calls[0], s_calls[0]
+            la, ls = fl.enclosing_loop(ac, fi.node), fl.enclosing_loop(sc, fi.node)
+            if la is None or ls is None:
+                r.violation(name + ': loop', 'the %s evaluation is outside the sampling loop: it is computed for one sample only'
+                            % ('author\'s' if la is None else 'student\'s'), lib.loc(fi, ac if la is None else sc))
+                continue
+            if la is not ls:
+                r.violation(name + ': loop', 'author and student are evaluated in different loops: by the time the student is '
+                            'evaluated the scope holds another sample than the one the author\'s value was computed with',
+                            lib.loc(fi, sc))
+                continue
+            loop = la
+            r.ok(name + ': loop', 'author and student evaluated in the same loop iteration', lib.loc(fi, loop))
+            # iteration count
+            if not (isinstance(loop, ast.For) and isinstance(loop.target, ast.Name)):
+                r.undecided(name + ': sample count', 'loop header not recognised', lib.loc(fi, loop))
+                continue
+            lv = loop.target.id
+            it = lib.inline_locals(loop.iter, fi.node)
+            res = nf.classify(["range(self.config['samples'])", "range(0, self.config['samples'])",
+                               "range(len(var_samples))"], it)
+            if res == nf.MATCH:
+                r.ok(name + ': sample count', "range(config['samples'])", lib.loc(fi, loop))
+            elif isinstance(res, tuple):
+                r.violation(name + ': sample count', res[1] + " -- the number of compared samples is not config['samples']",
+                            lib.loc(fi, loop), expected="range(self.config['samples'])", found=unparse(it))
+            elif isinstance(it, ast.Call) and nf.callee_name(it) == 'range' and it.args and \
+                    all(isinstance(a, ast.Constant) for a in it.args):
+                r.violation(name + ': sample count', "a fixed number of samples (`%s`) is compared instead of config['samples']"
+                            % unparse(it), lib.loc(fi, loop), expected="range(self.config['samples'])")
+            elif isinstance(it, ast.Call) and nf.callee_name(it) == 'range' and len(it.args) == 1 and \
+                    nf.config_key(it.args[0]) not in (None, 'samples'):
+                r.violation(name + ': sample count', "the loop runs config['%s'] times, not config['samples']"
+                            % nf.config_key(it.args[0]), lib.loc(fi, loop))
+            else:
+                r.undecided(name + ': sample count', 'iteration not recognised: %s' % short(it), lib.loc(fi, loop))
+            extra = [e for e in lib.loop_has_early_exit(loop) if not isinstance(e, ast.Raise)]
+            r.check(not extra, name + ': all samples', 'no break/continue/return inside the sampling loop',
+                    '`%s` ends the sampling loop early: the remaining samples are never compared' % (short(extra[0]) if extra else ''),
+                    lib.loc(fi, extra[0]) if extra else lib.loc(fi, loop))
+            # the same scope objects
+            sa, ss = scope_names(fi, [ac]), scope_names(fi, [sc])
+            if sa != ss:
+                r.violation(name + ': scope', 'author and student are evaluated on different scope objects (%s vs %s): they do not '
+                            'see the same sample' % (sorted(sa), sorted(ss)), lib.loc(fi, sc))
+                continue
+            scopes = {n for _, n in sa}
+            r.ok(name + ': scope', 'both evaluations use %s' % sorted(scopes), lib.loc(fi, sc))
+            # writers of the scope objects inside the loop
+            cfg = cfg_of(fi.node)
+            a_nodes, s_nodes = fl.nodes_for(cfg, ac), fl.nodes_for(cfg, sc)
+            loads = []
+            for n in ast.walk(loop):
+                if isinstance(n, ast.Call) and isinstance(n.func, ast.Attribute) and isinstance(n.func.value, ast.Name) \
+                        and n.func.value.id in scopes and n.func.attr in SCOPE_WRITERS:
+                    loads.append((n, n.func.value.id))
+                elif isinstance(n, ast.Assign):
+                    for t in n.targets:
+                        if isinstance(t, ast.Name) and t.id in scopes:
+                            loads.append((n, t.id))
+                        elif isinstance(t, ast.Subscript) and isinstance(t.value, ast.Name) and t.value.id in scopes:
+                            loads.append((n, t.value.id))
+            between = set(fl.between_in_iteration(cfg, loop, a_nodes, s_nodes))
+            before = {}
+            for n, target in loads:
+                nodes = set(fl.nodes_for(cfg, n)) if not isinstance(n, ast.Assign) else set(cfg.nodes_of(n))
+                where = lib.loc(fi, n)
+                if nodes & between:
+                    r.violation(name + ': between author and student', '`%s` changes the scope after the author\'s value was computed '
+                                'and before the student\'s is: the two are evaluated on different samples' % short(n), where)
+                    continue
+                head = fl.loop_head(cfg, loop)
+                dom_a = not cfg.reaches([head], a_nodes, blocked=nodes, after=True) if nodes else False
+                if dom_a and isinstance(n, ast.Call) and n.func.attr == 'update' and len(n.args) == 1:
+                    arg = n.args[0]
+                    if isinstance(arg, ast.Subscript) and isinstance(arg.value, ast.Name) and arg.value.id in fi.params:
+                        ix = arg.slice
+                        if isinstance(ix, ast.Name) and ix.id == lv:
+                            before.setdefault(target, []).append(arg.value.id)
+                            r.ok(name + ': sample %s' % target, '%s.update(%s[%s]) precedes both evaluations in every iteration'
+                                 % (target, arg.value.id, lv), where)
+                        elif isinstance(ix, ast.Constant):
+                            r.violation(name + ': sample %s' % target, 'every iteration loads sample %r (`%s`): the configured number of '
+                                        'independent samples is not used' % (ix.value, short(n)), where,
+                                        expected='%s[%s]' % (arg.value.id, lv))
+                        else:
+                            r.undecided(name + ': sample %s' % target, 'sample index not recognised: %s' % short(n), where)
+                    else:
+                        r.undecided(name + ': sample %s' % target, 'loaded value not recognised: %s' % short(n), where)
+            for kind, target in sorted(sa):
+                want = 'var_samples' if kind in ('variables', 'varscope') else 'func_samples'
+                if want not in before.get(target, []):
+                    if any(t == target for _, t in loads):
+                        r.violation(name + ': sample %s' % target, 'no `%s.update(%s[%s])` precedes the author\'s evaluation on every path '
+                                    'of an iteration: author and/or student are evaluated with the previous iteration\'s sample'
+                                    % (target, want, lv), lib.loc(fi, loop))
+                    else:
+                        r.violation(name + ': sample %s' % target, 'the %s of the current iteration are never loaded into %s'
+                                    % (want, target), lib.loc(fi, loop))
+            # the author's evaluation precedes the student's (needed for "only deletions in between" to make sense)
+            if not cfg.reaches(a_nodes, s_nodes, blocked=[fl.loop_head(cfg, loop)], after=True):
+                r.undecided(name + ': order', 'the student\'s evaluation is not reachable from the author\'s within an iteration',
+                            lib.loc(fi, sc))
+
+
+def d4_credit(ctx, idx):
+    r = ctx.rule('D4.CREDIT', "every comparer grade is multiplied by the answer's credit before consolidation with "
+                 "config['failable_evals']", floor=9)
+    with r:
+        fi = idx.func(FGC + '.raw_check')
+        name = 'FormulaGrader.raw_check'
+        ccall = lib.one_call(fi, 'compare_evaluations')
+        st = enclosing_stmt(ccall)
+        if not (isinstance(st, ast.Assign) and isinstance(st.targets[0], ast.Name)):
+            raise AnalysisError('%s: result of compare_evaluations is not bound to a name' % name)
+        rn = st.targets[0].id
+        kcall = lib.one_call(fi, 'consolidate_results')
+        stores = []
+        for n in walk_own(fi.node):
+            val = None
+            if isinstance(n, ast.AugAssign) and lib.subscript_key(n.target) == 'grade_decimal':
+                val = ast.BinOp(left=_as_load(n.target), op=n.op, right=n.value)
+                tgt = n.target
+            elif isinstance(n, ast.Assign) and len(n.targets) == 1 and lib.subscript_key(n.targets[0]) == 'grade_decimal':
+                val = n.value
+                tgt = n.targets[0]
+            if val is not None:
+                stores.append((n, tgt, val))
+        if not stores:
+            others = [c for c in walk_own(fi.node) if isinstance(c, ast.Call) and c is not ccall and c is not kcall
+                      and any(fl.mentions(a, rn) for a in fl.call_args(c))]
+            if others:
+                r.undecided(name + ': credit scaling', 'no store to [\'grade_decimal\']; results are handed to `%s`' % short(others[0]),
+                            lib.loc(fi, others[0]))
+            else:
+                r.violation(name + ': credit scaling', "the comparer grades are no longer multiplied by answer['grade_decimal']: a "
+                            "matched partial-credit answer yields full credit per sample and failing partial results keep their "
+                            "unscaled grade", lib.loc(fi, ccall), expected="result['grade_decimal'] *= answer['grade_decimal']")
+        for n, tgt, val in stores:
+            where = lib.loc(fi, n)
+            loop = fl.enclosing_loop(n, fi.node)
+            ok_loop = isinstance(loop, ast.For) and isinstance(loop.iter, ast.Name) and loop.iter.id == rn and \
+                isinstance(loop.target, ast.Name) and isinstance(tgt.value, ast.Name) and tgt.value.id == loop.target.id
+            if not ok_loop:
+                if isinstance(loop, ast.For) and isinstance(loop.iter, ast.Subscript) and fl.mentions(loop.iter, rn):
+                    r.violation(name + ': credit scaling', 'only part of the results is scaled (`%s`)' % short(loop.iter), where)
+                else:
+                    r.undecided(name + ': credit scaling', 'the store is not inside `for result in %s`' % rn, where)
+                continue
+            rv = loop.target.id
+            res = nf.classify("%s['grade_decimal'] * answer['grade_decimal']" % rv, val)
+            if res == nf.MATCH:
+                extra = [e for e in lib.loop_has_early_exit(loop)]
+                cond = [a for a, br in fl.if_chain_containing(n, fi.node) if any(a is x for x in ast.walk(loop))]
+                if extra or cond:
+                    r.violation(name + ': credit scaling', 'the scaling is skipped for some results (%s)'
+                                % short(extra[0] if extra else cond[0].test), where)
+                else:
+                    r.ok(name + ': credit scaling', "result['grade_decimal'] *= answer['grade_decimal'] for every result", where)
+                r.check(lib.dominated(fi, [loop.iter], [kcall]) and lib.dominated(fi, [ccall], [n])
+                        and fl.enclosing_loop(kcall, fi.node) is not loop, name + ': credit scaling order',
+                        'after the comparison and before consolidation',
+                        'the scaling does not lie between compare_evaluations and consolidate_results on every path', where)
+            elif isinstance(res, tuple):
+                r.violation(name + ': credit scaling', res[1], where,
+                            expected="%s['grade_decimal'] * answer['grade_decimal']" % rv, found=unparse(val))
+            else:
+                r.undecided(name + ': credit scaling', 'not recognised: %s' % short(n), where)
+        for q, ans in ((FGC, 'answer'), (SGB, None)):
+            fi2 = idx.func(q + '.raw_check')
+            nm = q.split('.')[-1] + '.raw_check'
+            kc = lib.one_call(fi2, 'consolidate_results')
+            cc = lib.one_call(fi2, 'compare_evaluations')
+            st2 = enclosing_stmt(cc)
+            rn2 = st2.targets[0].id if isinstance(st2, ast.Assign) and isinstance(st2.targets[0], ast.Name) else None
+            a0, a1, a2 = (lib.get_kw(kc, 'results', 0), lib.get_kw(kc, 'answer', 1), lib.get_kw(kc, 'failable_evals', 2))
+            where = lib.loc(fi2, kc)
+            if isinstance(a0, ast.Name) and a0.id == rn2:
+                r.ok(nm + ': consolidate results', 'all comparer results', where)
+            elif a0 is not None and isinstance(a0, ast.Subscript) and fl.mentions(a0, rn2 or ''):
+                r.violation(nm + ': consolidate results', 'only part of the comparer results is consolidated (`%s`)' % short(a0), where)
+            else:
+                r.undecided(nm + ': consolidate results', 'first argument not recognised: %s' % short(a0), where)
+            if ans is not None:
+                if isinstance(a1, ast.Name) and a1.id == ans:
+                    r.ok(nm + ': consolidate answer', 'the matched answer', where)
+                else:
+                    r.undecided(nm + ': consolidate answer', 'second argument not recognised: %s' % short(a1), where)
+            if lib.is_config(a2, 'failable_evals'):
+                r.ok(nm + ': consolidate failable_evals', "self.config['failable_evals']", where)
+            elif a2 is not None and nf.config_key(a2) is not None:
+                r.violation(nm + ': consolidate failable_evals', "failures are counted against config['%s'], not config['failable_evals']"
+                            % nf.config_key(a2), where, expected="self.config['failable_evals']")
+            elif isinstance(a2, ast.Constant):
+                r.violation(nm + ': consolidate failable_evals', "config['failable_evals'] is ignored: the constant %r is used" % a2.value,
+                            where, expected="self.config['failable_evals']")
+            else:
+                r.undecided(nm + ': consolidate failable_evals', 'third argument not recognised: %s' % short(a2), where)
+            rets = lib.returns_of(fi2.node)
+            st3 = enclosing_stmt(kc)
+            bound = st3.targets[0].id if isinstance(st3, ast.Assign) and isinstance(st3.targets[0], ast.Name) else None
+            good = [x for x in rets if isinstance(x.value, ast.Tuple) and x.value.elts and
+                    ((isinstance(x.value.elts[0], ast.Name) and x.value.elts[0].id == bound) or x.value.elts[0] is kc)]
+            if len(good) == len(rets) and rets:
+                r.ok(nm + ': verdict', 'returns the consolidated result', lib.loc(fi2, rets[0]))
+            else:
+                r.undecided(nm + ': verdict', 'the consolidated result is not what is returned', fi2.loc)
+
+
+def _as_load(node):
+    from ..index import clone
+    new = clone(node)
+    for n in ast.walk(new):
+        if hasattr(n, 'ctx'):
+            n.ctx = ast.Load()
+    return new
+
+
+# ----------------------------------------------------------------------------- D5
+def _schema_entries(idx, keys):
+    """(module, owner text, key name, key call, value node) for every `Required('<key>', ...): value` dict entry."""
+    out = []
+    for m in idx.package_modules():
+        for d in ast.walk(m.tree):
+            if not isinstance(d, ast.Dict):
+                continue
+            for k, v in zip(d.keys, d.values):
+                if isinstance(k, ast.Call) and nf.callee_name(k) in ('Required', 'Optional') and k.args \
+                        and isinstance(k.args[0], ast.Constant) and k.args[0].value in keys:
+                    owner = None
+                    for a in ancestors(d):
+                        if isinstance(a, ast.ClassDef):
+                            owner = a.name
+                            break
+                    out.append((m, owner or m.name, k.args[0].value, k, v))
+    return out
+
+
+def d5_tables(ctx, idx):
+    r = ctx.rule('D5.TABLE', 'tolerance is a PercentageString or a non-negative number in every math schema; samples is a '
+                 'positive int; failable_evals a non-negative int; NumericalGrader pins samples 1 / failable_evals 0', floor=20)
+    with r:
+        entries = _schema_entries(idx, {'tolerance', 'samples', 'failable_evals'})
+        seen = {}
+        for m, owner, key, kcall, v in entries:
+            construct = "%s schema: '%s'" % (owner, key)
+            where = lib.mloc(m, v)
+            seen.setdefault(key, []).append(owner)
+            pinned = owner == 'NumericalGrader' and key in ('samples', 'failable_evals')
+            if key == 'tolerance':
+                res = nf.classify(['Any(PercentageString, NonNegative(Number))', 'Any(NonNegative(Number), PercentageString)'], v)
+                if res == nf.MATCH:
+                    r.ok(construct, 'Any(PercentageString, NonNegative(Number))', where)
+                elif nf.match('Any(PercentageString, Positive(Number))', v) is not None:
+                    r.violation(construct, 'a tolerance of 0 is refused (Positive): exact-match grading cannot be configured', where,
+                                expected='NonNegative(Number)')
+                elif nf.match('Any(PercentageString, Number)', v) is not None or nf.match('Any(PercentageString, _T)', v) is not None \
+                        and unparse(nf.match('Any(PercentageString, _T)', v)['_T']) in ('Number', 'float', 'int', 'object'):
+                    r.violation(construct, 'negative tolerances are accepted: norm(x - y) <= t can then never hold and no answer is '
+                                'ever correct', where, expected='NonNegative(Number)', found=unparse(v))
+                elif nf.match('NonNegative(Number)', v) is not None:
+                    r.violation(construct, 'percentage tolerances are no longer accepted', where,
+                                expected='Any(PercentageString, NonNegative(Number))')
+                elif nf.match('Any(str, NonNegative(Number))', v) is not None:
+                    r.violation(construct, 'any string is accepted as a tolerance (no PercentageString validation): negative or '
+                                'malformed percentages reach within_tolerance', where)
+                elif isinstance(res, tuple):
+                    r.violation(construct, res[1], where, expected='Any(PercentageString, NonNegative(Number))', found=unparse(v))
+                else:
+                    r.undecided(construct, 'validator not recognised: %s' % short(v), where)
+                d = lib.get_kw(kcall, 'default')
+                dv = nf.const_value(d, None)
+                if isinstance(dv, str):
+                    ok = dv.strip().endswith('%') and _is_float(dv.strip()[:-1]) and float(dv.strip()[:-1]) >= 0
+                elif isinstance(dv, (int, float)) and not isinstance(dv, bool):
+                    ok = dv >= 0
+                else:
+                    ok = None
+                if ok is None:
+                    r.undecided(construct + ' default', 'default not a literal: %s' % short(d), where)
+                else:
+                    r.check(ok, construct + ' default', repr(dv), 'the default tolerance %r is not a valid non-negative tolerance' % (dv,),
+                            where)
+            elif pinned:
+                want = 1 if key == 'samples' else 0
+                cv = nf.const_value(v, None)
+                if isinstance(v, ast.Constant) and cv == want and not isinstance(cv, bool):
+                    r.ok(construct, 'pinned to %d' % want, where)
+                elif isinstance(v, ast.Constant):
+                    r.violation(construct, 'NumericalGrader pins %s to %r instead of %d' % (key, cv, want), where,
+                                expected=str(want), found=repr(cv))
+                else:
+                    r.violation(construct, 'NumericalGrader no longer pins %s to %d (validator `%s`): a numerical answer is then '
+                                'compared %s' % (key, want, short(v), 'several times' if key == 'samples' else 'with tolerated failures'),
+                                where, expected=str(want), found=unparse(v))
+            else:
+                want = 'Positive(int)' if key == 'samples' else 'NonNegative(int)'
+                res = nf.classify(want, v)
+                if res == nf.MATCH:
+                    r.ok(construct, want, where)
+                elif key == 'samples' and nf.match('NonNegative(int)', v) is not None:
+                    r.violation(construct, 'samples = 0 is accepted: no sample is compared and every response agrees vacuously',
+                                where, expected=want)
+                elif key == 'failable_evals' and nf.match('Positive(int)', v) is not None:
+                    r.violation(construct, 'failable_evals = 0 (the default: no failure tolerated) is refused', where, expected=want)
+                elif isinstance(v, ast.Name) and v.id in ('int', 'Number', 'float', 'object'):
+                    r.violation(construct, '%s is only type-checked (`%s`): %s values are accepted' %
+                                (key, v.id, 'zero and negative' if key == 'samples' else 'negative'), where, expected=want)
+                elif isinstance(res, tuple):
+                    r.violation(construct, res[1], where, expected=want, found=unparse(v))
+                else:
+                    r.undecided(construct, 'validator not recognised: %s' % short(v), where)
+        for key, owners in (('tolerance', {'MathMixin', 'NumericalGrader', 'SumGrader'}),
+                            ('samples', {'MathMixin', 'NumericalGrader', 'IntegralGrader', 'SumGrader'}),
+                            ('failable_evals', {'MathMixin', 'NumericalGrader'})):
+            missing = owners - set(seen.get(key, []))
+            for o in sorted(missing):
+                if o == 'NumericalGrader' and key != 'tolerance':
+                    r.violation("NumericalGrader schema: '%s'" % key, 'NumericalGrader no longer overrides %s: it inherits the '
+                                'FormulaGrader option instead of the pinned value' % key, idx.cls(NGC).loc)
+                elif o == 'MathMixin':
+                    r.undecided("MathMixin schema: '%s'" % key, 'entry vanished from math_config_options', idx.cls(MM).loc)
+        # the math schema is what the graders extend
+        for q in (FGC, IGC, SGC):
+            fi = idx.func(q + '.schema_config')
+            ext = [c for c in lib.calls_named(fi.node, 'extend') if c.args and nf.match('self.math_config_options', c.args[0]) is not None]
+            r.check(bool(ext), q.split('.')[-1] + '.schema_config', 'extends math_config_options',
+                    'the grader schema no longer includes math_config_options (tolerance/samples/failable_evals unvalidated)', fi.loc)
+        # PercentageString
+        fi = idx.func('mitxgraders.helpers.validatorfuncs.PercentageString')
+        C = 'PercentageString'
+        neg = []
+        for n in walk_own(fi.node):
+            if isinstance(n, ast.If):
+                t = nf.canon(n.test)
+                if isinstance(t, ast.Compare) and len(t.ops) == 1 and isinstance(t.ops[0], (ast.Lt, ast.LtE)) and \
+                        any(isinstance(s, ast.Raise) for s in n.body):
+                    neg.append((n, t))
+        if not neg:
+            r.violation(C + ': sign', "negative percentages are no longer refused: with tolerance '-1%' nothing is ever within "
+                        'tolerance', fi.loc, expected='if percent < 0: raise Invalid')
+        for n, t in neg:
+            env = lib.local_env(fi.node)
+            lhs = nf.subst(t.left, env)
+            rhs = t.comparators[0]
+            isnum = nf.match('float(_W[:-1])', lhs) is not None
+            if isnum and isinstance(t.ops[0], ast.Lt) and nf.const_value(rhs, None) == 0:
+                cls_ok = all(nf.exc_class_name(s.exc) == 'Invalid' for s in n.body if isinstance(s, ast.Raise))
+                r.check(cls_ok, C + ': sign', 'percent < 0 raises Invalid', 'a negative percentage raises %s, which voluptuous does not '
+                        'treat as a validation failure' % [nf.exc_class_name(s.exc) for s in n.body if isinstance(s, ast.Raise)],
+                        lib.loc(fi, n))
+            elif isnum and isinstance(t.ops[0], ast.LtE) and nf.const_value(rhs, None) == 0:
+                r.violation(C + ': sign', "'0%%' is refused (`%s`): an exact-match percentage tolerance cannot be configured"
+                            % unparse(n.test), lib.loc(fi, n), expected='percent < 0')
+            elif nf.match('float(_W[:-1])', nf.subst(rhs, env)) is not None and nf.const_value(t.left, None) == 0:
+                r.violation(C + ': sign', 'the sign test is inverted (`%s`): positive percentages are refused and negative ones accepted'
+                            % unparse(n.test), lib.loc(fi, n), expected='percent < 0')
+            else:
+                r.undecided(C + ': sign', 'test not recognised: %s' % short(n.test), lib.loc(fi, n))
+        ends = [c for c in lib.calls_named(fi.node, 'endswith') if c.args and nf.const_value(c.args[0], None) == '%']
+        if ends:
+            r.ok(C + ': form', "requires a trailing '%'", lib.loc(fi, ends[0]))
+        else:
+            r.undecided(C + ': form', "no endswith('%') test found", fi.loc)
+        tail = strip_tail_raise(fi)
+        r.check(tail, C + ': refusal', 'every other value raises Invalid', 'values that are not percentage strings fall through '
+                '(None is returned as the validated tolerance)', fi.loc)
+        # NonNegative / Positive
+        for fn, pats, bad in (('NonNegative', ["All(_T, Range(0, float('inf')))", "All(_T, Range(min=0))", "All(_T, Range(0, None))"],
+                               'negative'),):
+            fi = idx.func('mitxgraders.helpers.validatorfuncs.' + fn)
+            ps = nf.decision_paths(fi.node.body)
+            if len(ps) != 1 or ps[0].leaf.kind != 'ret':
+                raise AnalysisError('%s: expected a single return' % fn)
+            res = nf.classify([p.replace('_T', fi.params[0]) for p in pats], ps[0].leaf.expr)
+            r.verdict(fn, res, lib.loc(fi, ps[0].leaf.stmt), ok_detail='All(type, Range(0, inf))', expected=pats[0])
+        fi = idx.func('mitxgraders.helpers.validatorfuncs.Positive')
+        got = {}
+        for p in nf.decision_paths(fi.node.body):
+            if p.leaf.kind != 'ret':
+                continue
+            is_int = any(nf.match('%s == int' % fi.params[0], g) is not None or nf.match('%s is int' % fi.params[0], g) is not None
+                         for g in p.guards)
+            got['int' if is_int else 'other'] = p
+        if 'int' in got:
+            p = got['int']
+            res = nf.classify(["All(%s, Range(1, float('inf')))" % fi.params[0], "All(%s, Range(min=1))" % fi.params[0]], p.leaf.expr)
+            r.verdict('Positive(int)', res, lib.loc(fi, p.leaf.stmt), ok_detail='All(int, Range(1, inf))', expected='Range(1, inf)')
+        else:
+            r.undecided('Positive(int)', 'integer branch not recognised', fi.loc)
+
+
+def _is_float(s):
+    try:
+        float(s)
+        return True
+    except ValueError:
+        return False
+
+
+def strip_tail_raise(fi):
+    """Every path through the function either returns a value under the percent checks or raises."""
+    cfg = cfg_of(fi.node)
+    falls = [p for p, lab in cfg.exit_return.preds if not (p.kind == 'stmt' and isinstance(p.ast, ast.Return))]
+    bare = [x for x in lib.returns_of(fi.node) if x.value is None or (isinstance(x.value, ast.Constant) and x.value.value is None)]
+    return not falls and not bare
+
+
+# ------------------------------------------------------------------------ self-test
+_FG_LOOP_HEAD = ("            funclist.update(func_samples[i])\n            varlist.update(var_samples[i])\n\n"
+                 "            def scoped_eval(expression,")
+
+MUTANTS = [
+    # D1
+    Mutant('tol-strict', MF, "    return np.linalg.norm(difference) <= tolerance\n\ndef is_nearly_zero",
+           "    return np.linalg.norm(difference) < tolerance\n\ndef is_nearly_zero", 'D1'),
+    Mutant('tol-inverted', MF, "    return np.linalg.norm(difference) <= tolerance\n\ndef is_nearly_zero",
+           "    return np.linalg.norm(difference) >= tolerance\n\ndef is_nearly_zero", 'D1'),
+    Mutant('pct-relative-to-student', MF, "        tolerance = np.linalg.norm(x) * percentage_as_number(tolerance)\n\n    difference",
+           "        tolerance = np.linalg.norm(y) * percentage_as_number(tolerance)\n\n    difference", 'D1'),
+    Mutant('pct-not-scaled', MF, "        tolerance = np.linalg.norm(x) * percentage_as_number(tolerance)\n\n    difference",
+           "        tolerance = percentage_as_number(tolerance)\n\n    difference", 'D1'),
+    Mutant('difference-is-sum', MF, "    difference = x - y\n", "    difference = x + y\n", 'D1'),
+    Mutant('inf-clause-removed', MF, "    if isinstance(x, Number):\n        if x == inf or y == inf or x == -inf or y == -inf:\n            return x == y\n",
+           "", 'D1'),
+    Mutant('inf-clause-forgets-student', MF, "        if x == inf or y == inf or x == -inf or y == -inf:", "        if x == inf or x == -inf:", 'D1'),
+    Mutant('inf-matches-anything', MF, "        if x == inf or y == inf or x == -inf or y == -inf:\n            return x == y",
+           "        if x == inf or y == inf or x == -inf or y == -inf:\n            return True", 'D1'),
+    Mutant('inf-clause-abs', MF, "        if x == inf or y == inf or x == -inf or y == -inf:\n            return x == y",
+           "        if x == inf or y == inf or x == -inf or y == -inf:\n            return x != y", 'D1'),
+    Mutant('percent-factor', MF, "    return float(percent_str.strip()[:-1]) * 0.01", "    return float(percent_str.strip()[:-1]) * 0.1", 'D1'),
+    Mutant('percent-not-scaled', MF, "    return float(percent_str.strip()[:-1]) * 0.01", "    return float(percent_str.strip()[:-1])", 'D1'),
+    # D2
+    Mutant('equality-comparer-swapped', CMP, "        return utils.within_tolerance(expected_eval, student_eval)",
+           "        return utils.within_tolerance(student_eval, expected_eval)", 'D2'),
+    Mutant('transform-one-side', CMP, "        expected_eval = transform(expected_eval)\n        student_eval = transform(student_eval)\n",
+           "        expected_eval = transform(expected_eval)\n", 'D2'),
+    Mutant('mixin-utils-swapped', MH, "        def _within_tolerance(x, y):\n            return within_tolerance(x, y, self.config['tolerance'])",
+           "        def _within_tolerance(x, y):\n            return within_tolerance(y, x, self.config['tolerance'])", 'D2'),
+    Mutant('matrix-utils-swapped', MG, "        def _within_tolerance(x, y):\n            return within_tolerance(x, y, self.config['tolerance'])",
+           "        def _within_tolerance(x, y):\n            return within_tolerance(y, x, self.config['tolerance'])", 'D2'),
+    Mutant('matrix-utils-fixed-tolerance', MG, "        def _within_tolerance(x, y):\n            return within_tolerance(x, y, self.config['tolerance'])",
+           "        def _within_tolerance(x, y):\n            return within_tolerance(x, y, '0.01%')", 'D2'),
+    Mutant('compare-evaluations-zip-swapped', MH, "                result = comparer(compare_params_eval, student_eval, utils)",
+           "                result = comparer(student_eval, compare_params_eval, utils)", 'D2'),
+    Mutant('correlated-swapped', MH, "            result = comparer(compare_params_evals, student_evals, utils)",
+           "            result = comparer(student_evals, compare_params_evals, utils)", 'D2'),
+    Mutant('raw-check-swapped', FG, "        results = self.compare_evaluations(comparer_params_evals, student_evals,",
+           "        results = self.compare_evaluations(student_evals, comparer_params_evals,", 'D2'),
+    Mutant('summation-raw-check-swapped', IG, "        results = self.compare_evaluations(instructor_evals, student_evals,",
+           "        results = self.compare_evaluations(student_evals, instructor_evals,", 'D2'),
+    Mutant('gen-evaluations-return-swapped', FG, "        return comparer_params_evals, student_evals, meta.functions_used",
+           "        return student_evals, comparer_params_evals, meta.functions_used", 'D2'),
+    Mutant('sum-appends-swapped', IG, "            instructor_evals.append(expected_eval)\n            student_evals.append(student_eval)",
+           "            instructor_evals.append(student_eval)\n            student_evals.append(expected_eval)", 'D2'),
+    Mutant('only-first-sample-compared', MH, "                result = comparer(compare_params_eval, student_eval, utils)\n                results.append(ItemGrader.standardize_cfn_return(result))\n",
+           "                result = comparer(compare_params_eval, student_eval, utils)\n                results.append(ItemGrader.standardize_cfn_return(result))\n                break\n", 'D2'),
+    # D3
+    Mutant('threshold-ge', MH, "                if len(results) == 1 or num_failures > failable_evals:", "                if len(results) == 1 or num_failures >= failable_evals:", 'D3'),
+    Mutant('threshold-and', MH, "                if len(results) == 1 or num_failures > failable_evals:", "                if len(results) == 1 and num_failures > failable_evals:", 'D3'),
+    Mutant('single-sample-clause-dropped', MH, "                if len(results) == 1 or num_failures > failable_evals:", "                if num_failures > failable_evals:", 'D3'),
+    Mutant('partial-counts-as-pass', MH, "            if result['ok'] != True:\n                num_failures += 1", "            if result['ok'] == False:\n                num_failures += 1", 'D3'),
+    Mutant('partial-counts-as-pass-falsy', MH, "            if result['ok'] != True:\n                num_failures += 1", "            if not result['ok']:\n                num_failures += 1", 'D3'),
+    Mutant('counter-starts-at-minus-one', MH, "        num_failures = 0\n", "        num_failures = -1\n", 'D3'),
+    Mutant('compare-before-increment', MH, "                num_failures += 1\n                if len(results) == 1 or num_failures > failable_evals:\n                    return result\n",
+           "                if len(results) == 1 or num_failures > failable_evals:\n                    return result\n                num_failures += 1\n", 'D3'),
+    Mutant('skip-first-result', MH, "        for result in results:\n            if result['ok'] != True:", "        for result in results[1:]:\n            if result['ok'] != True:", 'D3'),
+    # D4
+    Mutant('credit-multiplication-dropped', FG, "            result['grade_decimal'] *= answer['grade_decimal']\n", "            pass\n", 'D4'),
+    Mutant('credit-added', FG, "            result['grade_decimal'] *= answer['grade_decimal']\n", "            result['grade_decimal'] += answer['grade_decimal']\n", 'D4'),
+    Mutant('failable-evals-ignored', FG, "        consolidated = self.consolidate_results(results, answer, self.config['failable_evals'])",
+           "        consolidated = self.consolidate_results(results, answer, 0)", 'D4'),
+    Mutant('failable-evals-is-samples', IG, "        consolidated = self.consolidate_results(results, None, self.config['failable_evals'])",
+           "        consolidated = self.consolidate_results(results, None, self.config['samples'])", 'D4'),
+    Mutant('student-sees-next-sample', FG, "            for key in var_blacklist:\n                del varlist[key]\n\n            student_eval, meta",
+           "            for key in var_blacklist:\n                del varlist[key]\n            varlist.update(var_samples[(i + 1) % len(var_samples)])\n\n            student_eval, meta", 'D4'),
+    Mutant('sample-loaded-after-author', FG, "            varlist.update(var_samples[i])\n\n            def scoped_eval(expression,", "            def scoped_eval(expression,", 'D4',
+           note='varlist only refreshed in the debug branch'),
+    Mutant('always-first-sample', FG, "            funclist.update(func_samples[i])\n            varlist.update(var_samples[i])\n\n            def scoped_eval",
+           "            funclist.update(func_samples[i])\n            varlist.update(var_samples[0])\n\n            def scoped_eval", 'D4'),
+    Mutant('one-sample-fewer', FG, "        for i in range(self.config['samples']):\n            # Update the functions and variables listings with this sample\n            funclist.update(func_samples[i])\n            varlist.update(var_samples[i])\n\n            def scoped_eval",
+           "        for i in range(self.config['samples'] - 1):\n            # Update the functions and variables listings with this sample\n            funclist.update(func_samples[i])\n            varlist.update(var_samples[i])\n\n            def scoped_eval", 'D4'),
+    Mutant('sum-student-on-fresh-scope', IG, "                student_input['summation_variable'],\n                varscope=varlist,",
+           "                student_input['summation_variable'],\n                varscope=dict(var_samples[0]),", 'D4'),
+    # D5
+    Mutant('tolerance-any-number', MH, "        Required('tolerance', default='0.01%'): Any(PercentageString, NonNegative(Number)),",
+           "        Required('tolerance', default='0.01%'): Any(PercentageString, Number),", 'D5'),
+    Mutant('tolerance-zero-refused', FG, "            Required('tolerance', default='5%'): Any(PercentageString, NonNegative(Number)),",
+           "            Required('tolerance', default='5%'): Any(PercentageString, Positive(Number)),", 'D5'),
+    Mutant('negative-percentage-accepted', VF, "                if percent < 0:\n                    raise Invalid(\"Cannot have a negative percentage\")\n", "", 'D5'),
+    Mutant('zero-percent-refused', VF, "                if percent < 0:", "                if percent <= 0:", 'D5'),
+    Mutant('numerical-samples-unpinned', FG, "            Required('samples', default=1): 1,", "            Required('samples', default=1): Positive(int),", 'D5'),
+    Mutant('numerical-failable-unpinned', FG, "            Required('failable_evals', default=0): 0\n", "            Required('failable_evals', default=0): NonNegative(int)\n", 'D5'),
+    Mutant('nonnegative-from-one', VF, "    return All(thetype, Range(0, float('inf')))\n\ndef PercentageString", "    return All(thetype, Range(1, float('inf')))\n\ndef PercentageString", 'D5'),
+]
+
+BENIGN = [
+    Benign('difference-reversed', MF, "    difference = x - y\n", "    difference = y - x\n"),
+    Benign('tolerance-inlined', MF, "    difference = x - y\n\n    return np.linalg.norm(difference) <= tolerance",
+           "    return np.linalg.norm(x - y) <= tolerance"),
+    Benign('tolerance-explicit-else', MF, "        tolerance = np.linalg.norm(x) * percentage_as_number(tolerance)\n\n    difference = x - y\n\n    return np.linalg.norm(difference) <= tolerance",
+           "        limit = percentage_as_number(tolerance) * np.linalg.norm(x)\n    else:\n        limit = tolerance\n    return limit >= np.linalg.norm(x - y)"),
+    Benign('percent-div-100', MF, "    return float(percent_str.strip()[:-1]) * 0.01", "    value = float(percent_str.strip()[:-1])\n    return value / 100"),
+    Benign('failure-test-is-not', MH, "            if result['ok'] != True:\n                num_failures += 1", "            if result['ok'] is not True:\n                num_failures += 1"),
+    Benign('threshold-reordered', MH, "                if len(results) == 1 or num_failures > failable_evals:", "                if failable_evals < num_failures or 1 == len(results):"),
+    Benign('equality-comparer-temporaries', CMP, "        return utils.within_tolerance(expected_eval, student_eval)",
+           "        lhs, rhs = expected_eval, student_eval\n        return utils.within_tolerance(lhs, rhs)"),
+    Benign('log-between-evaluations', FG, "            for key in var_blacklist:\n                del varlist[key]\n\n            student_eval, meta",
+           "            for key in var_blacklist:\n                del varlist[key]\n            self.log('evaluating student input')\n\n            student_eval, meta"),
+    Benign('credit-explicit-product', FG, "            result['grade_decimal'] *= answer['grade_decimal']\n",
+           "            result['grade_decimal'] = answer['grade_decimal'] * result['grade_decimal']\n"),
+    Benign('tolerance-any-order', MH, "        Required('tolerance', default='0.01%'): Any(PercentageString, NonNegative(Number)),",
+           "        Required('tolerance', default='0.01%'): Any(NonNegative(Number), PercentageString),"),
+]
